@@ -1,7 +1,9 @@
 package worker
 
 import (
+	"bytes"
 	"encoding/json"
+	"fmt"
 	"strings"
 
 	"vsim/plan"
@@ -39,6 +41,7 @@ var shortDocs = []string{
 // snippets: token-rich fragments; each byte of a snippet is aligned in turn
 // with the refill boundaries of the stream buffer.
 var snippets = []string{
+	`"\ud83d\ude00"`, `"x\ud83d\ude00y\u00e9"`, `{"\u0041":1,"B":"\ud83d\ude00"}`, `{"na\u006de":"v","a\u003cb&c":"w"}`,
 	`null`, `true`, `false`, `-12.5e+10`, `"a\nbé😀c"`, `"é😀日"`, `{"A":1,"B":"x"}`, `[1,2,3]`,
 	`{"key":null,"k2":[true,false]}`, `"\\\"\/"`, `1234567890123`, `{"aA":"日"}`, `[null,true,-0.5,"s",{}]`,
 	`"AQIDBAUG"`, `{"name":"n","opt":3,"str":"-12","f":0.25,"a<b&c":"h"}`, `nulx`, `"\uZZ"`, `"\ud83dx"`, `{"unk":{"q":[1,"]"]},"A":1}`,
@@ -158,3 +161,74 @@ func interestingCuts(doc []byte) []int {
 }
 
 var sepChoices = []string{" ", "\n", "\t\r\n ", "  ", "\n\n"}
+
+// escapeKey rewrites one object key of the document: one of its characters
+// becomes a \uXXXX escape, or a multi-byte escape is appended, or the key is
+// cut and continued with an escape (keys that are a prefix or an escaped
+// spelling of a field name).
+func escapeKey(doc []byte, r *plan.Rng) []byte {
+	// find the keys: a string followed by a colon
+	type span struct{ a, b int }
+	var keys []span
+	for i := 0; i < len(doc); i++ {
+		if doc[i] != '"' {
+			continue
+		}
+		j := i + 1
+		for j < len(doc) && doc[j] != '"' {
+			if doc[j] == '\\' {
+				j++
+			}
+			j++
+		}
+		if j >= len(doc) {
+			break
+		}
+		k := j + 1
+		for k < len(doc) && (doc[k] == ' ' || doc[k] == '\n') {
+			k++
+		}
+		if k < len(doc) && doc[k] == ':' && j > i+1 {
+			keys = append(keys, span{i + 1, j})
+		}
+		i = j
+	}
+	if len(keys) == 0 {
+		return doc
+	}
+	sp := keys[r.Intn(len(keys))]
+	key := doc[sp.a:sp.b]
+	var nk []byte
+	switch r.Intn(4) {
+	case 0: // escape one ASCII character
+		p := r.Intn(len(key))
+		if key[p] < 0x80 && key[p] != '\\' && (p == 0 || key[p-1] != '\\') {
+			nk = append(append(append([]byte(nil), key[:p]...), []byte(fmt.Sprintf("\\u%04x", key[p]))...), key[p+1:]...)
+		}
+	case 1: // append a multi-byte escape
+		nk = append(append([]byte(nil), key...), "\\u3042"...)
+	case 2: // cut and continue with an escape
+		nk = append(append([]byte(nil), key[:len(key)-1]...), "\\u3042\\ud83d\\ude00"...)
+	default: // a simple escape in the middle
+		nk = append(append(append([]byte(nil), key[:len(key)/2]...), "\\n"...), key[len(key)/2:]...)
+	}
+	if nk == nil {
+		return doc
+	}
+	out := append([]byte(nil), doc[:sp.a]...)
+	out = append(out, nk...)
+	return append(out, doc[sp.b:]...)
+}
+
+// dupKeys concatenates the members of two objects: every key of the second
+// repeats a key of the first with (mostly) another value.
+func dupKeys(a, b []byte) []byte {
+	a = bytes.TrimSpace(a)
+	b = bytes.TrimSpace(b)
+	if len(a) < 3 || len(b) < 3 || a[0] != '{' || b[0] != '{' || a[len(a)-1] != '}' || b[len(b)-1] != '}' {
+		return a
+	}
+	out := append([]byte(nil), a[:len(a)-1]...)
+	out = append(out, ',')
+	return append(out, b[1:]...)
+}
